@@ -3,6 +3,7 @@ CONSTANTS
   Zones = {1, 2, 3}
   FixLock = FALSE
   FixAck = FALSE
+  FixStale = FALSE
   ZlibDetects = TRUE
   MaxMain = 3
   MaxFaults = 1
